@@ -1,5 +1,154 @@
-(** C07 — the boolean checker run on what the C code wrote (the stream of octets after the 354). *)
-From Qv Require Import Common.Bytes Spec.SmtpDataSpec.
+(** C07 — the receiver's view, as an executable checker run on what the C code wrote
+    (the stream of octets after the 354).  Independent of the models: it undoes, in the order a
+    receiver would, the dot-stuffing, the header folding Qremote introduced, and the
+    quoted-printable encoding Qremote declared, and compares with the normalised original.
+
+    Domain ([c07_domain]): the property quantifies over messages whose declared transfer encoding
+    is absent, 7bit, 8bit or binary; multipart messages are left to the C06 checker and to the
+    model/C agreement here (result "pre"). *)
+From Qv Require Import Common.Bytes Gen.GenQrdata Spec.SmtpDataSpec.
 
 (** no recoding: byte for byte the dot-stuffed normalisation followed by the terminator *)
 Definition spec_ok_C07_plain (m stream : bytes) : bool := bytes_eqb stream (plain_wire m).
+
+(* ------------------------------------------------------------------ small text helpers *)
+Definition lower (l : bytes) : bytes := map to_lower l.
+
+Fixpoint prefix_b (p l : bytes) : bool :=
+  match p, l with
+  | [], _ => true
+  | x :: p', y :: l' => N.eqb x y && prefix_b p' l'
+  | _ :: _, [] => false
+  end.
+
+Fixpoint contains_b (needle hay : bytes) : bool :=
+  match hay with
+  | [] => prefix_b needle []
+  | _ :: t => prefix_b needle hay || contains_b needle t
+  end.
+
+Definition is_blank_c (c : N) : bool := N.eqb c SP || N.eqb c HT.
+Definition is_cont (l : bytes) : bool := match l with c :: _ => is_blank_c c | [] => false end.
+
+Fixpoint drop_blanks (l : bytes) : bytes :=
+  match l with
+  | c :: r => if is_blank_c c then drop_blanks r else l
+  | [] => []
+  end.
+Definition trim (l : bytes) : bytes := rev (drop_blanks (rev (drop_blanks l))).
+
+(** header lines (before the first empty line) and, if there is an empty line, the lines behind it *)
+Fixpoint split_hdr (ls : list bytes) : list bytes * option (list bytes) :=
+  match ls with
+  | [] => ([], None)
+  | l :: rest =>
+      match l with
+      | [] => ([], Some rest)
+      | _ => let (h, b) := split_hdr rest in (l :: h, b)
+      end
+  end.
+
+(** remove every field whose lower-cased first line starts with [name], with its continuation lines;
+    returns the number of fields removed, the first line of the last one, and what is left *)
+Fixpoint drop_field (name : bytes) (skipping : bool) (ls : list bytes) : nat * bytes * list bytes :=
+  match ls with
+  | [] => (0, [], [])
+  | l :: rest =>
+      if skipping && is_cont l then drop_field name true rest
+      else if prefix_b name (lower l) then
+        let '(n, v, r) := drop_field name true rest in (S n, match n with O => l | _ => v end, r)
+      else let '(n, v, r) := drop_field name false rest in (n, v, l :: r)
+  end.
+
+(** remove the two consecutive lines [l1], [l2] *)
+Fixpoint drop_marker (l1 l2 : bytes) (ls : list bytes) : option (list bytes) :=
+  match ls with
+  | a :: rest =>
+      match rest with
+      | b :: rest' =>
+          if bytes_eqb a l1 && bytes_eqb b l2 then Some rest'
+          else match drop_marker l1 l2 rest with Some r => Some (a :: r) | None => None end
+      | [] => None
+      end
+  | [] => None
+  end.
+
+(** [x] is [o] with "CRLF SP" inserted at some places (the folding Qremote introduces) *)
+Fixpoint unfolds_to (x o : bytes) {struct x} : bool :=
+  match x with
+  | [] => match o with [] => true | _ => false end
+  | c :: xt =>
+      (match o with oc :: ot => N.eqb c oc && unfolds_to xt ot | [] => false end)
+      || (match xt with
+          | c2 :: c3 :: x' => N.eqb c CR && N.eqb c2 LF && N.eqb c3 SP && unfolds_to x' o
+          | _ => false
+          end)
+  end.
+
+Definition CTE_NAME : bytes :=
+  [99; 111; 110; 116; 101; 110; 116; 45; 116; 114; 97; 110; 115; 102; 101; 114; 45; 101; 110; 99; 111; 100; 105; 110; 103; 58]%N.
+  (* "content-transfer-encoding:" *)
+Definition MULTIPART_NAME : bytes := [109; 117; 108; 116; 105; 112; 97; 114; 116; 47]%N.    (* "multipart/" *)
+Definition V_7BIT : bytes := [55; 98; 105; 116]%N.
+Definition V_8BIT : bytes := [56; 98; 105; 116]%N.
+Definition V_BINARY : bytes := [98; 105; 110; 97; 114; 121]%N.
+
+(** the message is one the property speaks about (for the recoding path) *)
+Definition c07_domain (m : bytes) : bool :=
+  let (hdr, _) := split_hdr (split_lines m) in
+  let '(n, cte, _) := drop_field CTE_NAME false hdr in
+  negb (existsb (fun l => contains_b MULTIPART_NAME (lower l)) hdr)
+  && match n with
+     | O => true
+     | S O => let v := trim (skipn (length CTE_NAME) (lower cte)) in
+              bytes_eqb v V_7BIT || bytes_eqb v V_8BIT || bytes_eqb v V_BINARY
+     | _ => false
+     end.
+
+(** the two lines Qremote inserts when it recodes a body *)
+Definition marker_lines (helo : bytes) : option (bytes * bytes) :=
+  match crlf_lines (RECODED_STR ++ helo ++ CRLF) with
+  | Some [l1; l2] => Some (l1, l2)
+  | _ => None
+  end.
+
+(** a non-multipart message that went the recoding way *)
+Definition spec_ok_C07_recoded (m helo stream : bytes) : bool :=
+  match strip_terminator stream, marker_lines helo with
+  | Some d, Some (l1, l2) =>
+      match crlf_lines d with
+      | None => false
+      | Some ws =>
+          let (xh, xb) := split_hdr (map unstuff_line ws) in
+          let (_, wb) := split_hdr ws in       (* the body as it is on the wire, dots still stuffed *)
+          let (oh, ob) := split_hdr (split_lines m) in
+          let obody := match ob with Some b => join_crlf b | None => [] end in
+          match drop_marker l1 l2 xh with
+          | Some xh' =>
+              (* body declared quoted-printable: header without the old Content-Transfer-Encoding field *)
+              let '(_, _, oh') := drop_field CTE_NAME false oh in
+              unfolds_to (join_crlf xh') (join_crlf oh')
+              && match xb with
+                 | Some _ => match wb with
+                             | Some b => match qp_decode 0 true (join_crlf b) with
+                                         | Some dec => bytes_eqb (with_final_crlf dec) obody
+                                         | None => false
+                                         end
+                             | None => false
+                             end
+                 | None => bytes_eqb obody []
+                 end
+          | None =>
+              unfolds_to (join_crlf xh) (join_crlf oh)
+              && bytes_eqb (match xb with Some b => join_crlf b | None => [] end) obody
+              && Bool.eqb (match xb with Some _ => true | None => false end) (match ob with Some _ => true | None => false end)
+          end
+      end
+  | _, _ => false
+  end.
+
+(** result: Some true = ok, Some false = violated, None = outside the domain *)
+Definition spec_ok_C07 (m helo stream : bytes) (qpath : bool) : option bool :=
+  if negb qpath then Some (spec_ok_C07_plain m stream)
+  else if c07_domain m then Some (spec_ok_C07_recoded m helo stream)
+  else None.
